@@ -57,7 +57,21 @@ def make_case(r, g, n_geos, cls=None, elig_mode=None, focus=None, allow=None, id
           'elig_index_keyed': r.random() < 0.3, 'elig_seed': r.randrange(1 << 30),
           'preset_geo_index': r.random() < 0.2}
   case['prior_long_window'] = (r.random() < 0.15 and kw.get('n_pretest_max', 90) < n_dates)
+  case['prior_sibling'] = one_field_variant(r, kw) if r.random() < 0.2 else None
   return case
+
+
+def one_field_variant(r, kw):
+  """{field: value}: the parameters of another search object that was built on the same data object earlier and
+  differs from the object under test in exactly one statistical setting."""
+  f = r.choice(['flevel', 'flevel', 'sig_level', 'power_level', 'rho_max', 'iroas', 'min_corr'])
+  options = {'flevel': [0.9, 0.95, 0.99, 0.8], 'sig_level': [0.9, 0.8, 0.95, 0.6], 'power_level': [0.8, 0.5, 0.9, 0.7],
+             'rho_max': [0.995, 0.99, 0.999], 'min_corr': [0.8, 0.85, 0.9, 0.95]}
+  defaults = {'flevel': 0.9, 'sig_level': 0.9, 'power_level': 0.8, 'rho_max': 0.995, 'min_corr': 0.8}
+  if f == 'iroas':
+    return {'iroas': kw['iroas'] * 2.0 if kw['iroas'] > 0 else 1.0}
+  cur = kw.get(f, defaults[f])
+  return {f: r.choice([v for v in options[f] if v != cur])}
 
 
 def describe(case, with_frame=True):
@@ -67,14 +81,15 @@ def describe(case, with_frame=True):
        'n_dates': len(p['dates']), 'first_date': str(p['dates'][0]), 'features': p['features'],
        'eligibility': case['elig_rows'], 'params': util.jsonable(case['params']), 'extra': case['extra'],
        'preset_geo_index': bool(case.get('preset_geo_index')),
-       'prior_long_window': bool(case.get('prior_long_window'))}
+       'prior_long_window': bool(case.get('prior_long_window')), 'prior_sibling': case.get('prior_sibling')}
   if with_frame and len(p['ids']) * len(p['dates']) <= 400:
     d['values'] = [[round(float(v), 6) for v in row] for row in p['values']]
   return d
 
 
-def build(case, mods=None, params_override=None):
-  """Fresh (data, parameters, matched-markets) objects from the concrete inputs."""
+def build(case, mods=None, params_override=None, plain=False):
+  """Fresh (data, parameters, matched-markets) objects from the concrete inputs. plain=True leaves out everything
+  that happened to the data object before it reached the object under test (reference for history checks)."""
   if mods is None:
     dmod, pmod, emod, smod = (bootstrap.mm('tbrmmdata'), bootstrap.mm('tbrmmdesignparameters'),
                               bootstrap.mm('geoeligibility'), bootstrap.mm('tbrmatchedmarkets'))
@@ -87,7 +102,16 @@ def build(case, mods=None, params_override=None):
     edf = gen.elig_frame(case['elig_rows'], er, index_keyed=case['elig_index_keyed'])
     elig = emod.GeoEligibility(edf)
   data = dmod.TBRMMData(case['frame'].copy(), 'response', elig)
-  if case.get('prior_long_window'):
+  if case.get('prior_sibling') and not plain:
+    # another search object, differing in one statistical setting, was built on this data object (and used) first
+    try:
+      sib = smod.TBRMatchedMarkets(data, pmod.TBRMMDesignParameters(**dict(params_override or case['params'], **case['prior_sibling'])))
+      _ = sib.geos_within_constraints
+      if len(case['panel']['ids']) <= 8:
+        sib.greedy_search()
+    except Exception:  # pylint: disable=broad-except
+      pass
+  if case.get('prior_long_window') and not plain:
     # the data object was used before by another search object with a LONGER window (and searched), then handed
     # to the object under test, whose constructor cuts the table to its own, shorter window
     kw_long = dict(params_override or case['params'])
@@ -99,7 +123,7 @@ def build(case, mods=None, params_override=None):
       first.greedy_search()
     except Exception:  # pylint: disable=broad-except
       pass
-  if case.get('preset_geo_index'):
+  if case.get('preset_geo_index') and not plain:
     # a caller may install a geo index on the data object before handing it to the search object
     data.geo_index = [gid for gid in data.df.index if gid in data.assignable]
   par = pmod.TBRMMDesignParameters(**(params_override or case['params']))
